@@ -310,6 +310,11 @@ func isFreshBytes(v ssa.Value, d int) bool {
 			case "bytes.Clone", "slices.Clone":
 				return true
 			}
+			return calleeReturnsFresh(f, 0, d+1)
+		}
+	case *ssa.Extract:
+		if call, ok := x.Tuple.(*ssa.Call); ok && call.Call.StaticCallee() != nil {
+			return calleeReturnsFresh(call.Call.StaticCallee(), x.Index, d+1)
 		}
 	case *ssa.MakeSlice:
 		return true
@@ -331,6 +336,24 @@ func isFreshBytes(v ssa.Value, d int) bool {
 		return true
 	}
 	return false
+}
+
+// calleeReturnsFresh: a function of this module every return of which hands out, as result idx, bytes that are fresh
+// by the same criterion (a read helper that allocates the buffer it fills and returns).
+func calleeReturnsFresh(f *ssa.Function, idx int, d int) bool {
+	if f == nil || len(f.Blocks) == 0 || f.Pkg == nil || !strings.HasPrefix(f.Pkg.Pkg.Path(), modPath) {
+		return false
+	}
+	rets := Returns(f)
+	if len(rets) == 0 {
+		return false
+	}
+	for _, ret := range rets {
+		if idx >= len(ret.Results) || !isFreshBytes(ReturnValue(ret, idx), d+1) {
+			return false
+		}
+	}
+	return true
 }
 
 func isFreshBase(v ssa.Value, d int) bool {
